@@ -3,10 +3,7 @@
 package benchunit
 
 import (
-	"encoding/json"
 	"fmt"
-	"os"
-	"strconv"
 	"strings"
 	"testing"
 
@@ -22,11 +19,6 @@ import (
 // same call gives in this (long-running, fully warmed) process, whose answers
 // the other families check against the exact oracle.
 
-type c10Call struct {
-	name string
-	run  func() string
-}
-
 func fmtAll(s Scaler, vs ...float64) string {
 	var out []string
 	for _, v := range vs {
@@ -35,7 +27,7 @@ func fmtAll(s Scaler, vs ...float64) string {
 	return strings.Join(out, " ")
 }
 
-var c10Calls = []c10Call{
+var c10Calls = []mc.Call{
 	{"Scale(0.5,Binary)", func() string { return Scale(0.5, Binary) }},
 	{"Scale(0.5,Decimal)", func() string { return Scale(0.5, Decimal) }},
 	{"Scale(1536,Binary)", func() string { return Scale(1536, Binary) }},
@@ -56,100 +48,11 @@ var c10Calls = []c10Call{
 
 // TestVerifC10Fresh is the body of the fresh process.
 func TestVerifC10Fresh(t *testing.T) {
-	spec := os.Getenv("VERIF_C10_CALLS")
-	if spec == "" {
+	if !mc.FirstCallsChild(c10Calls, "VERIF_C10_CALLS") {
 		t.Skip()
 	}
-	var out []string
-	for _, s := range strings.Split(spec, ",") {
-		i, _ := strconv.Atoi(s)
-		var r string
-		if p := mc.Catch(func() { r = c10Calls[i].run() }); p != "" {
-			r = "panic: " + strings.SplitN(p, "\n", 2)[0]
-		}
-		out = append(out, r)
-	}
-	mc.FreshPrint(strings.Join(out, "\x01"))
-}
-
-func c10CheckFresh(seq []int, warm []string) string {
-	var spec []string
-	for _, i := range seq {
-		spec = append(spec, strconv.Itoa(i))
-	}
-	got, err := mc.FreshExec("TestVerifC10Fresh", "VERIF_C10_CALLS="+strings.Join(spec, ","))
-	if err != nil {
-		return err.Error()
-	}
-	parts := strings.Split(got, "\x01")
-	if len(parts) != len(seq) {
-		return fmt.Sprintf("fresh process answered %d of %d calls", len(parts), len(seq))
-	}
-	for k, i := range seq {
-		if parts[k] != warm[i] {
-			var before []string
-			for _, j := range seq[:k] {
-				before = append(before, c10Calls[j].name)
-			}
-			return fmt.Sprintf("%s = %q as call %d of a fresh process (after %v), but %q in a process that has used the package before", c10Calls[i].name, parts[k], k+1, before, warm[i])
-		}
-	}
-	return ""
 }
 
 func c10Fresh(c *mc.Check) {
-	warm := make([]string, len(c10Calls))
-	for i, cl := range c10Calls {
-		warm[i] = cl.run()
-	}
-	replay := func(raw json.RawMessage) string {
-		var seq []int
-		if err := json.Unmarshal(raw, &seq); err != nil {
-			return err.Error()
-		}
-		return c10CheckFresh(seq, warm)
-	}
-	var names []string
-	for _, cl := range c10Calls {
-		names = append(names, cl.name)
-	}
-	f := c.Family("first-calls-of-a-fresh-process", fmt.Sprintf("every call of %v as the FIRST call of a new process (the test binary re-executed), alone and followed by every other call (all ordered pairs): each answer equals the answer of the same call in the long-running process, whose answers the other families check against the exact oracle — so tables built on first use, by whichever entry point comes first, cannot change a result; non-trivial = pairs", names), replay)
-	if c.Replaying() {
-		return
-	}
-	var seqs [][]int
-	for i := range c10Calls {
-		seqs = append(seqs, []int{i})
-	}
-	for i := range c10Calls {
-		for j := range c10Calls {
-			if i != j {
-				seqs = append(seqs, []int{i, j})
-			}
-		}
-	}
-	f.Bounds["calls"] = len(c10Calls)
-	f.Bounds["fresh_processes"] = len(seqs)
-	done := mc.ParRange(uint64(len(seqs)), 1, c.TimeUp, func(w int, lo, hi uint64) {
-		l := f.Local()
-		for k := lo; k < hi; k++ {
-			msg := c10CheckFresh(seqs[k], warm)
-			l.Evals++
-			if len(seqs[k]) > 1 {
-				l.Nontrivial++
-			}
-			if msg != "" {
-				l.Outcome("differs")
-				c.Fail(f, "fresh-process", seqs[k], msg)
-			} else {
-				l.Outcome("same as warm")
-			}
-		}
-		l.Flush()
-	})
-	if done < uint64(len(seqs)) {
-		f.Capped(fmt.Sprintf("time cap: %d of %d processes", done, len(seqs)))
-	}
-	f.Sample([]int{0, 1})
-	f.Done()
+	mc.FirstCalls(c, c10Calls, "TestVerifC10Fresh", "VERIF_C10_CALLS")
 }
